@@ -747,12 +747,25 @@ struct World
             }
             if (d.act == REPLACE) {
                 // judged for the object the library's search order finds first; step() re-judges for the object really affected
+                // (replacing by an object that the same container already lists is NOT the excluded shape - only ADDING is:
+                // it is a move within the container, or a refusal)
                 int Pb = o(cl.b).parent;
-                int P0 = an.victims.empty() ? cl.K : o(an.victims[0]).parent;
-                an.excluded = Pb == P0;
-                if (d.fam == COMP && isAncestorOrSelf(cl.b, P0)) {
+                int v0 = an.victims.empty() ? -1 : an.victims[0];
+                int P0 = v0 < 0 ? cl.K : o(v0).parent;
+                if (v0 == cl.b) {
+                    an.rel += "+new-same";
+                    an.mayRefuse = true;
+                } else if (d.fam == COMP && isAncestorOrSelf(cl.b, P0)) {
                     an.rel += "+new-ancestor";
                     an.mustRefuse = true;
+                } else if (v0 >= 0 && Pb == P0) {
+                    const auto &l = o(P0).kids[d.fam];
+                    bool before = std::find(l.begin(), l.end(), cl.b) < std::find(l.begin(), l.end(), v0);
+                    an.rel += before ? "+new-sibling-before" : "+new-sibling-after";
+                    if (l.back() == v0) {
+                        an.rel += ",victim-last";
+                    }
+                    an.mayRefuse = true;
                 } else if (Pb >= 0) {
                     an.rel += "+new-has-parent";
                     an.mayRefuse = true;
@@ -855,18 +868,26 @@ struct World
                     }
                 }
             }
+            bool selfReplace = d.act == REPLACE && std::find(an.victims.begin(), an.victims.end(), cl.b) != an.victims.end();
+            if (X < 0 && r && d.act != TAKE && an.victims.size() == 1 && an.victims[0] != cl.b) {
+                // success was reported and only one object is addressed: expect the full effect on it, so that the
+                // comparison below shows what is wrong (e.g. the addressed object still listed at another position)
+                X = an.victims[0];
+            }
             bool mustRefuse = an.victims.empty();
             if (X >= 0 && d.act == REPLACE) {
-                mustRefuse = (d.fam == COMP && isAncestorOrSelf(cl.b, o(X).parent)) || o(cl.b).parent == o(X).parent;
+                mustRefuse = d.fam == COMP && isAncestorOrSelf(cl.b, o(X).parent);
             }
             bool changed = X >= 0 && !mustRefuse;
             if (changed) {
                 int P = o(X).parent;
+                if (d.act == REPLACE) {
+                    detach(cl.b); // first: a replacement that sits in the same container in front of X shifts X
+                }
                 const auto &pl = o(P).kids[d.fam];
                 size_t pos = static_cast<size_t>(std::find(pl.begin(), pl.end(), X) - pl.begin());
                 detach(X);
                 if (d.act == REPLACE) {
-                    detach(cl.b);
                     attach(P, cl.b, pos);
                 }
                 if (d.act == TAKE && cl.keep) {
@@ -877,10 +898,12 @@ struct World
             if (retWrong.empty() && gone > 1) {
                 retWrong = "more than one addressed object left its container";
             }
-            if (retWrong.empty() && r != changed) {
+            if (!changed && selfReplace) {
+                // the first object found is the replacement itself: nothing may change, either return value is acceptable
+            } else if (retWrong.empty() && r != changed) {
                 retWrong = changed ? "reported failure although an object was affected" : "reported success although nothing may be affected";
             }
-            if (retWrong.empty() && !changed && !an.mustRefuse && !an.mayRefuse) {
+            if (retWrong.empty() && !changed && !selfReplace && !an.mustRefuse && !an.mayRefuse) {
                 retWrong = "refused although the addressed object is a child";
             }
             break;
@@ -1010,36 +1033,14 @@ Call mk(const char *op, int K, int a = -1, int b = -1)
     return cl;
 }
 
-// Known defects of the unchanged tree (see notes/C09.md). In "avoid" histories calls of these shapes are skipped and
-// counted so that the search goes on beyond them; "allow" histories run them and end at the first listed failure.
+// Hook for defects of the tree that would otherwise end most histories: in "avoid" histories (first tape value) calls
+// of a listed shape are skipped and counted so that the search goes on beyond them; "allow" histories run them.
+// The shapes that were listed here (equals()-based lookup, self insertion, replacement by an ancestor / by a parented
+// object; see notes/C09.md F1-F3) are fixed in /repo, so nothing is skipped any more; the tape layout is unchanged.
 std::string knownShape(const OpDef &d, const World::Analysis &an)
 {
-    const std::string &rel = an.rel;
-    auto starts = [&](const char *p) { return rel.compare(0, strlen(p), p) == 0; };
-    if (d.sel == PTR && (d.act == REMOVE || d.act == REPLACE)) {
-        // lookup by equals(): the first structurally equal child is taken for the operand
-        if (starts("lookalike") && d.fam != UNITS) {
-            return "equals-lookup";
-        }
-        // (replace goes through the index overload, which updates the matched child itself; removeReset does so too)
-        if (starts("foreign-lookalike") && d.act == REMOVE && d.fam != RESET) {
-            return "equals-lookup";
-        }
-    }
-    if (d.act == ADD && rel == "move-lookalike" && d.fam != UNITS) {
-        return "equals-lookup";
-    }
-    if (d.act == ADD && d.fam == COMP && rel == "self-parented") {
-        return "self-insertion";
-    }
-    if (d.act == REPLACE && !an.victims.empty()) {
-        if (rel.find("+new-ancestor") != std::string::npos) {
-            return "replace-by-ancestor";
-        }
-        if (rel.find("+new-has-parent") != std::string::npos) {
-            return "replace-by-parented";
-        }
-    }
+    (void)d;
+    (void)an;
     return "";
 }
 
@@ -1174,39 +1175,6 @@ void run(Src &src, Case &c)
                 }
             }
             std::sort(containers.begin(), containers.end());
-            // replacing by an object that the container of the replaced object already lists is outside the claim
-            auto replaceExcluded = [&](const OpDef &d, const Call &cand) {
-                int Pb = w.o(cand.b).parent;
-                if (Pb < 0) {
-                    return false;
-                }
-                const auto &kids = w.o(cand.K).kids[d.fam];
-                int v0 = -1;
-                if (d.sel == IDX) {
-                    v0 = cand.idx < kids.size() ? kids[cand.idx] : -1;
-                } else {
-                    std::vector<int> sc;
-                    w.scope(cand.K, d.fam, cand.enc, sc);
-                    if (d.sel == NAME) {
-                        for (int x : sc) {
-                            if (w.o(x).name == cand.name) {
-                                v0 = x;
-                                break;
-                            }
-                        }
-                    } else if (std::find(sc.begin(), sc.end(), cand.a) != sc.end()) {
-                        v0 = cand.a;
-                    } else {
-                        for (int x : sc) {
-                            if (w.realEquals(x, cand.a)) {
-                                v0 = x;
-                                break;
-                            }
-                        }
-                    }
-                }
-                return Pb == (v0 >= 0 ? w.o(v0).parent : cand.K);
-            };
             for (size_t oi = 0; oi < OPS.size(); ++oi) {
                 const OpDef &d = OPS[oi];
                 if (d.fam != famKind) {
@@ -1288,8 +1256,8 @@ void run(Src &src, Case &c)
                         for (int nw : news) {
                             base.b = nw;
                             auto emit = [&]() {
-                                if (d.act == REPLACE && replaceExcluded(d, base)) {
-                                    ++excludedHere;
+                                // replacing an object by itself (addressed by index or pointer) is a trivial no-op: left to rc
+                                if (d.act == REPLACE && ((d.sel == IDX && base.idx < kids.size() && kids[base.idx] == base.b) || (d.sel == PTR && base.a == base.b))) {
                                     return;
                                 }
                                 calls.push_back(base);
